@@ -132,17 +132,23 @@ theorem Framed.length_ge {ver ty xid : Nat} {bs : Bytes} {v' : V} (h : Framed ve
   rw [frameBytes_length, List.length_take] at this
   omega
 
-/-- the same, field by field as a receiver reads them: byte 0 = version, byte 1 = type, bytes 2–3 = the number of bytes
-    produced, bytes 4–7 = transaction id -/
-theorem Framed.reads {ver ty xid : Nat} {bs : Bytes} {v' : V} (h : Framed ver ty xid bs v')
+/-- eight leading bytes of that form, read field by field as a receiver does: byte 0 = version, byte 1 = type,
+    bytes 2–3 = the number of bytes produced, bytes 4–7 = transaction id -/
+theorem head_reads {ver ty xid : Nat} {bs : Bytes} (h : bs.take 8 = frameBytes ver ty bs.length xid)
     (hv : ver < 256) (ht : ty < 256) (hx : xid < 4294967296) (hl : bs.length < 65536) :
     beAt bs 0 1 = ver ∧ beAt bs 1 1 = ty ∧ beAt bs 2 2 = bs.length ∧ beAt bs 4 4 = xid := by
   have hsplit : bs = frameBytes ver ty bs.length xid ++ bs.drop 8 := by
-    conv => lhs; rw [← List.take_append_drop 8 bs, h.head]
+    conv => lhs; rw [← List.take_append_drop 8 bs, h]
   generalize bs.length = n at hsplit hl
   rw [hsplit]
   simp only [frameBytes, be16, be32, n8, n16, n32, UInt16.toNat_ofNat', UInt32.toNat_ofNat']
   refine ⟨?_, ?_, ?_, ?_⟩ <;> simp [beAt] <;> omega
+
+/-- a framed encoding, field by field -/
+theorem Framed.reads {ver ty xid : Nat} {bs : Bytes} {v' : V} (h : Framed ver ty xid bs v')
+    (hv : ver < 256) (ht : ty < 256) (hx : xid < 4294967296) (hl : bs.length < 65536) :
+    beAt bs 0 1 = ver ∧ beAt bs 1 1 = ty ∧ beAt bs 2 2 = bs.length ∧ beAt bs 4 4 = xid :=
+  head_reads h.head hv ht hx hl
 
 /-- `append`-style encoders (`data, _ = hdr.MarshalBinary(); data = append(data, …)`): the encoding starts with the
     header bytes, which were produced after `Header.Length = l` -/
@@ -183,5 +189,55 @@ theorem framed_fill (ver ty xid : Nat) (ln : V) (l : UInt16) (hb : Bytes) (L : N
   have e8 := Header.bytes_length _ _ hhb
   obtain ⟨hfit, _⟩ := fill_head_of_next L hb p ps out hp hfill
   exact framed_fill_fit ver ty xid ln l hb L _ out v' hhb (by omega) hfill hlen hst
+
+/-! ### what the constructors stamp, and what the API leaves alone -/
+
+/-- `v` is a message whose embedded header carries protocol version 1.3 (wire value 4 = `Gen.openflow13.VERSION`), the
+    type code `ty` and the transaction id `xid` (the stored Length is whatever it is: every encoder overwrites it) -/
+def Stamped (ty xid : Nat) (v : V) : Prop :=
+  ∃ ln, hdrOf v = .obj "Header" [.num Gen.openflow13.VERSION, .num ty, ln, .num xid]
+
+/-- `m.Xid = x` (promoted field of the embedded header): what every program does right after a constructor that drew
+    its header from `NewOfp13Header()` -/
+def setXid (x : Nat) : V → V
+  | .obj k (.obj "Header" [a, b, c, _] :: rest) => .obj k (.obj "Header" [a, b, c, .num x] :: rest)
+  | v => v
+
+theorem Stamped.setXid {ty xid : Nat} {v : V} (h : Stamped ty xid v) (x : Nat) : Stamped ty x (setXid x v) := by
+  obtain ⟨ln, hh⟩ := h
+  cases v with
+  | obj k fs =>
+    cases fs with
+    | nil => simp [hdrOf] at hh
+    | cons f rest =>
+      simp only [hdrOf] at hh
+      subst hh
+      exact ⟨ln, rfl⟩
+  | _ => simp [hdrOf] at hh
+
+/-- anything that leaves the embedded header alone (adders, setters of other fields) keeps the stamp -/
+theorem Stamped.of_hdr_eq {ty xid : Nat} {v v' : V} (h : Stamped ty xid v) (he : hdrOf v' = hdrOf v) : Stamped ty xid v' := by
+  obtain ⟨ln, hh⟩ := h
+  exact ⟨ln, he.trans hh⟩
+
+/-- the four multipart request bodies the library has -/
+def IsMpBody (b : V) : Prop :=
+  (∃ fs, b = .obj "FlowStatsRequest" fs) ∨ (∃ fs, b = .obj "AggregateStatsRequest" fs) ∨
+  (∃ fs, b = .obj "PortStatsRequest" fs) ∨ (∃ fs, b = .obj "QueueStatsRequest" fs)
+
+/-- what `VendorHeader.MarshalBinary()` needs of its payload: the encoder calls `Len()` twice (once for `Header.Length`,
+    once for `make`), so the payload's `Len()` must be repeatable and must leave a non-nil payload behind -/
+def VendorPayloadOK (d : V) : Prop :=
+  LenIdem anyLenM d ∧ ∀ l d', anyLenM d = .ok (l, d') → d' ≠ .nil
+
+theorem VendorPayloadOK.of_pure (d : V) (hp : LenPure anyLenM d) (hd : d ≠ .nil) : VendorPayloadOK d :=
+  ⟨hp.idem, fun l d' h => by rw [hp l d' h]; exact hd⟩
+
+/-- the action kinds whose reported size is always a multiple of 8 (`C06b.action_len_aligned`): the fixed 8/16-byte
+    kinds and the kinds that round up -/
+def PaddedKinds : List String :=
+  ["ActionOutput", "ActionSetqueue", "ActionGroup", "ActionDecNwTtl", "ActionPush", "ActionPopVlan",
+   "ActionPopMpls", "ActionSetField", "NXActionCTNAT", "NXActionLearn", "NXActionNote", "NXActionRegLoad2",
+   "NXActionController"]
 
 end OFV.Frame
